@@ -5,7 +5,7 @@
  * Thread W (WOP): 0 = S comes back: after the refusal (S took the edge, so it was removed from the successor cache) it calls
  *   register_successor on the limiter; 1 = a decrement arrives (decrement_counter -> forward_task inline, which cannot reserve
  *   while F holds the reservation); 2 = both in sequence.  REGP = 1 for WOP 0/2 (S takes the edge when it refuses), 0 for WOP 1.
- * Lazy-CSeq schedule, then every forwarder task that was created is executed (one at a time, bounded: 3).
+ * Lazy-CSeq schedule (<= ROUNDS free slices per thread + 2 forced rounds).
  * Oracle: no stuck message: at the end NOT (count + tries < threshold AND P has an unreserved item AND a successor is registered
  * AND no forwarder task is pending); my_tries == 0; my_count == forwarded - decrements; forwarded - decrements started <=
  * threshold at every accepted offer; reservation protocol (no offer without reservation, consume only after an accepted
@@ -80,12 +80,9 @@ int main(void) {
   __CPROVER_assume(!vp_unfinished);
   VP_ASSERT(nreturned == 2, "a call did not return");
   invariants();
-  /* run every forwarder task that exists (each may create another one): thread copies c, d, e of the forwarder body, each run
-     alone to completion (forced slices; a cut data-loop back edge needs another slice) */
-#define RUNPOST(t) if (n_run < n_ctor) { n_run++; t##_start(2); for (int k = 0; k < 2; k++) { vp_cur = 2; VP_RUNMAX(t) } VP_ASSERT(t##_fin, "VP bound: forwarder did not finish in 2 forced slices"); invariants(); }
-  RUNPOST(vp_thr_fwd_c) RUNPOST(vp_thr_fwd_d) RUNPOST(vp_thr_fwd_e)
-  VP_ASSERT(n_run == n_ctor, "VP bound: forwarder tasks still pending after 3 executions");
-  int stuck = vp_count() + vp_tries() < THR && item_avail && !item_reserved && vp_has_succ();
+  /* forwarder tasks that were created and not yet run (n_ctor - n_run) are not executed here: what a forwarder does from any
+     state is the sequential harness' business; the hand-shake only has to guarantee that one EXISTS when it is needed */
+  int stuck = n_run == n_ctor && vp_count() + vp_tries() < THR && item_avail && !item_reserved && vp_has_succ() && vp_has_pred();
   VP_ASSERT(!stuck, "stuck message: limiter below its threshold, predecessor holds the message, successor registered, no forwarder task left");
   VP_REACHED();
 }
